@@ -88,6 +88,7 @@ def plan(tier, seed):
     for i in range(len(PATHS)):
         jobs.append({'space': 'B', 'path': i, 'tier': tier, 'weight': 300})
     jobs.append({'space': 'W', 'tier': tier, 'weight': 50})
+    jobs.append({'space': 'Q', 'tier': tier, 'weight': 50})
     nmax = 9 if tier == 'quick' else 11
     for n in range(1, nmax + 1):
         k = 1 if n < 8 else 4 if n < 10 else 16
@@ -215,10 +216,63 @@ def run_E(acc, enf, job):
     acc.sample('E', {'leaves': E_LEAVES})
 
 
+Q_INNER = ["1'2", "a'b", "'", "''", 'x"y', '"', "a'.'b", "not'and'or",
+           "1'+'2", 'a', '', "\\'", "a' 'b", "a''b"]
+
+
+def run_Q(acc, enf):
+    """Left sides that begin and end with a quote character and hold that
+    same character (or the other one) inside.  Python's own literal grammar
+    decides what such a text is: a literal whose value is compared, or no
+    literal at all - then it is an attribute path the credentials lack, and
+    the check denies.  Right sides: the text between the outer quotes,
+    literally and through a placeholder."""
+    import ast
+    for inner in Q_INNER:
+        for q in ("'", '"'):
+            left = q + inner + q
+            for right, target in ((inner, {}), ('%(t)s', {'t': inner}),
+                                  ('x', {})):
+                if not right or not rleaf.well_formed(right) or \
+                        any(c in right for c in ' ()') or ':' in left:
+                    continue
+                try:
+                    v = ast.literal_eval(left)
+                    exp = (right % target) == str(v)
+                except Exception:
+                    exp = False           # no literal, no such attribute
+                leaf = '%s:%s' % (left, right)
+                for ctx_name, rule, tr in (
+                        ('l', [[leaf]], lambda e: e),
+                        ('lnot', [['@'], [leaf]], lambda e: True),
+                        ('ref', 'not rule:l', lambda e: not e)):
+                    world.set_rules(enf, {'l': [[leaf]], 'p': rule})
+                    acc.case('Q', True)
+                    acc.ev()
+                    got = attempt(enf, 'p', dict(target), {'roles': []})
+                    want = ('ok', tr(exp))
+                    if got[:2] != want:
+                        acc.violation(
+                            'Q|%s' % ('allows' if got[:2] == ('ok', True)
+                                      else 'denies' if got[0] == 'ok'
+                                      else got[1]),
+                            'left side %s, right side %r, target %r (%s): '
+                            'got %r, expected %r' % (left, right, target,
+                                                     ctx_name, got, want),
+                            {'leaf': leaf, 'context': ctx_name,
+                             'target': target, 'creds': {'roles': []}},
+                            want, got, 'Q')
+                    acc.outcome('Q-%s' % exp)
+    acc.sample('Q', {'inner': Q_INNER})
+
+
 def run(job, seed):
     acc = core.Acc()
     enf = world.bare_enforcer()
     b = BOUNDS[job['tier']]
+    if job['space'] == 'Q':
+        run_Q(acc, enf)
+        return acc.result()
     if job['space'] == 'E':
         run_E(acc, enf, job)
         return acc.result()
